@@ -638,11 +638,21 @@ func ruleD5(w *world.World, r *report.RuleResult) {
 	n := 0
 	for _, ret := range world.Returns(cp) {
 		rv := world.RetVals(ret)
-		if len(rv) != 1 || !world.IsNilConst(rv[0]) {
+		if len(rv) != 1 {
+			continue
+		}
+		f := world.FactsAt(in2, ret, nil, nil)
+		switch {
+		case world.IsNilConst(rv[0]):
+		case rv[0] == ssa.Value(scall) && scall.Block() == ret.Block():
+			// `return rw.Sync()`: success of the function is success of the sync
+			f |= S
+		case rv[0] == ssa.Value(wcall) && wcall.Block() == ret.Block():
+			f |= W
+		default:
 			continue
 		}
 		n++
-		f := world.FactsAt(in2, ret, nil, nil)
 		key := fmt.Sprintf("%s|write-sync-before-success#%d", cpn, n)
 		if f&W != 0 && f&S != 0 {
 			r.OK(key, w.InstrPos(ret), "CreatePreamble returns nil only after Write and Sync of the preamble both succeeded")
